@@ -87,6 +87,11 @@ def hostile_name_form(rng, i):
     if ch == "choices-header":
         for c in f.choices["l1"]:
             c[bad] = "v"
+        if rng.random() < 0.5:
+            # settings that change how the choices sheet is checked must not change what is done with an unusable column
+            f.settings["allow_choice_duplicates"] = rng.choice(["yes", "no", "true"])
+            if rng.random() < 0.5:
+                f.choices["l1"].append(dict(f.choices["l1"][0]))
     elif ch == "instance-attr":
         f.survey[0].cells[f"instance::{bad}"] = "v"
     elif ch == "bind-attr":
@@ -195,8 +200,35 @@ def run_shard(ctx):
             p, v = invariants.c01_wellformed(o.xform)
             ctx.case(sig=f"names|{ch}|{name_class(bad)}|{'bad' if v else 'ok'}")
             for key, what in v:
-                ctx.viol(f"hostile-name:{ch}:{name_class(bad)}", f"[{ch}] name/char {bad!r} accepted and output is {what}",
+                # a choices header with a space is dropped with a warning: if it ever reaches the output that is not the recorded "any other invalid name" finding
+                cls = "dropped-header-with-space-kept" if ch == "choices-header" and " " in bad else name_class(bad)
+                ctx.viol(f"hostile-name:{ch}:{cls}", f"[{ch}] name/char {bad!r} accepted and output is {what}",
                          common.witness(form, channel=ch, bad=bad, pretty=pretty, klass="names"))
+    # ---- choices columns whose header has a space (dropped with a warning), under every spelling of the setting that changes how the sheet is checked
+    kk = 0
+    for hdr in ("sort order", "notes for translators", "a b", " lead", "x  y"):
+        for acd in (None, "yes", "no", "true", "TRUE"):
+            for dup in (False, True):
+                kk += 1
+                if not ctx.mine(kk):
+                    continue
+                f = gen.simple_form([("select_one l1", "q2", {"label": "L2"})], choices={"l1": [{"name": "a", "label": "A", hdr: "1"}, {"name": "b", "label": "B", hdr: "2"}]})
+                if dup:
+                    f.choices["l1"].append({"name": "a", "label": "A again", hdr: "3"})
+                if acd:
+                    f.settings["allow_choice_duplicates"] = acd
+                for pretty in (False, True):
+                    o = drive.convert_form(f, pretty=pretty)
+                    ctx.ctr("hostile_name_cases")
+                    if not o.ok:
+                        ctx.ctr("hostile_name_rejected")
+                        ctx.case(sig=f"choices-space-header|{hdr}|{acd}|{dup}|rejected")
+                        continue
+                    p_, v = invariants.c01_wellformed(o.xform)
+                    ctx.case(sig=f"choices-space-header|{hdr}|{acd}|{dup}|{'bad' if v else 'ok'}")
+                    for key, what in v:
+                        ctx.viol("hostile-name:choices-header:dropped-header-with-space-kept", f"choices column {hdr!r} (allow_choice_duplicates={acd}) reached the output: {what}",
+                                 common.witness(f, channel="choices-header", bad=hdr, pretty=pretty, klass="names"))
     # ---- columns that address the generated parts of a control or bind (its element name, its ref/nodeset, the no-body flag) instead of adding an attribute
     RESERVED = [("body::tag", ["foo bar", "a<b", "upload", "x:y:z", "1tag", ""]), ("control::tag", ["in put", "a>b"]), ("body::ref", ["/data/zz", "zz", "/data/q1 "]),
                 ("body::nodeset", ["/data/zz"]), ("bind::nodeset", ["/data/zz"]), ("body::bodyless", ["yes", "true"]), ("bind::type", ["x y", "a<b"]), ("body::class", ["a b"])]
